@@ -146,6 +146,6 @@ def obligations(tier):
               weight=3, timeout=900)]
     for mname in P.MODES:
         obs.append(Ob(f'fallback_{mname}', 'S', ob_fallback, f'copy_all / fallback invariants, mode {mname}', functions=G, weight=6,
-                      timeout=7000, params={'mmax': 2 if q else 3, 'fill': P.FILL_Q if q else (0, 2, 4, 5), 'modes': [mname],
+                      timeout=7000, params={'mmax': 2 if q else 3, 'fill': P.FILL_Q if q else (0, 2, 4), 'modes': [mname],
                                             'cap': 2100 if q else 6500}))
     return obs
